@@ -173,12 +173,16 @@ def sat_pipeline(rep_notes, name, cfg, text, wd, env, dedup, quick, extra_events
         evs = _merge([ev] + [p() for p in extra_events], wd / ("all_%s.ndjson" % name))
         out["evs"] = evs
         out["T"] = _validate_with_selftest(out["rep"], "C15_SatTrace", evs, _corrupt_solve(evs), wd / ("allst_%s.ndjson" % name),
-                                           wd / ("tv_" + name), 1 if quick else 3)
+                                           wd / ("tv_" + name), 1 if quick else 2)
     out["rep"] = rep_notes
-    with ThreadPoolExecutor(max_workers=2) as ex:
-        fs = [ex.submit(impl), ex.submit(trace)]
-        for f in fs:
-            f.result()
+    if quick:
+        with ThreadPoolExecutor(max_workers=2) as ex:
+            fs = [ex.submit(impl), ex.submit(trace)]
+            for f in fs:
+                f.result()
+    else:               # thorough: several pipelines run side by side; keep each one sequential (<= 2 JVMs at a time)
+        impl()
+        trace()
     return out
 
 
@@ -242,7 +246,7 @@ def run(rep, tier):
         evs = _merge([ev, rev], wd / "all_tseitin.ndjson")
         out["evs"] = evs
         out["T"] = _validate_with_selftest(rep, "C15_TseitinTrace", evs, _corrupt_tseitin(evs), wd / "allst_tseitin.ndjson",
-                                           wd / "tv_tseitin", 1 if quick else 3)
+                                           wd / "tv_tseitin", 1 if quick else 2)
         sevs = _merge([sev, rsev], wd / "all_tseitin_cnf.ndjson")
         out["sevs"] = sevs
         out["Ts"] = validate_trace("C15_SatTrace", wd / "all_tseitin_cnf.ndjson", wd=wd / "tv_tseitin_cnf", nchunks=1)
@@ -263,7 +267,7 @@ def run(rep, tier):
                           "[] g[1] = \"and\" -> << << <<x, FALSE>>, <<N(g[2]), TRUE>> >>, << <<x, FALSE>>, <<N(g[2]), TRUE>> >>,")],
                         ["RefEquisat"], wd=wd, workers=1, env={"VECTOR_FILE": wd / "mutant_vectors2.ndjson"})
 
-    with ThreadPoolExecutor(max_workers=4) as ex:
+    with ThreadPoolExecutor(max_workers=4 if quick else 3) as ex:
         f_ts = ex.submit(tseitin_pipeline)
         f_sat = []
         for i, (n, c, t) in enumerate(universes):
@@ -345,11 +349,12 @@ def run(rep, tier):
         require(sum(tr[k]["nontrivial"] for k in tr if k.startswith("solve_")) >= 0.85 * sum(tr[k]["events"] for k in tr if k.startswith("solve_")),
                 "C15: too few solve events examined (vacuity guard)")
     if not ts_res["S"].violated:
-        require(tr["tseitin"]["nontrivial"] >= (250 if quick else 3000), "C15: too few examined Tseitin theorems (vacuity guard)")
+        require(tr["tseitin"]["nontrivial"] >= (250 if quick else 2500), "C15: too few examined Tseitin theorems (vacuity guard)")
 
     # ---- second specification mutant: the algorithm with a back-jump to the HIGHEST level of the learned clause keeps the
     # trail and must not terminate (run on the model of the repaired code; on a tree without the repair only in thorough)
-    first = next((r for r in sat_res if r.get("events")), None)
+    cands = [r for r in sat_res if r.get("events")]
+    first = next((r for r in cands if r["name"] in ("small", "set3x")), cands[0] if cands else None)   # needs 3 variables
     if first and (dedup or not quick):
         spec_mutant(rep, "backjump_to_highest_level", "C15_SatImpl", "C15_SatImpl_dedup.cfg",
                     [("C15_SatAlgo.tla", "IN lv[Len(lv) - 1]", "IN lv[Len(lv)]")], ["Progress", "Terminates"], wd=wd, workers=1,
